@@ -125,7 +125,13 @@ func (e *Env) term(x *Expr) Term {
 	return s.T
 }
 
+// specDepth > 0 while a contract expression is being evaluated (dereferences inside specifications are not
+// program dereferences: they generate no nil-deref obligations).
+var specDepth int
+
 func (e *Env) eval(x *Expr) TV {
+	specDepth++
+	defer func() { specDepth-- }()
 	switch x.Op {
 	case "int":
 		return scInt(IntLit(x.Int))
